@@ -145,6 +145,14 @@ var xUnits = []xUnit{
 	{Name: "tr_InvokeTimeout_fill", Dir: "tars", Func: "Protocol.InvokeTimeout",
 		From: "if reqPackage.CPacketType == basef.TARSONEWAY {", To: `rspPackage.SResultDesc = "server invoke timeout"`, Outs: []string{"rspPackage"},
 		After: []string{"return s.rsp2Byte(&rspPackage)"}},
+	// C01: ServantProxy.doInvoke, what the caller gets for the reply that arrived (IRet / SResultDesc -> *tars.Error or plain error)
+	{Name: "tr_GetErrorCode", Dir: "tars", Func: "GetErrorCode",
+		Oracles: map[string]xOracle{"err.(*Error)": {"err_is_tars", "bool"}, "e.Code": {"err_code", "Z"}}},
+	{Name: "tr_doInvoke_reply", Dir: "tars", Func: "ServantProxy.doInvoke", Deep: true, ErrVals: "Error",
+		From: "if msg.Status != basef.TARSSERVERSUCCESS || msg.Resp.IRet != 0 {", To: "if msg.Status != basef.TARSSERVERSUCCESS || msg.Resp.IRet != 0 {",
+		Outs: []string{}, After: []string{},
+		Reads: map[string]xOracle{"msg.Status": {"msg_status", "Z"}, "msg.Resp.IRet": {"rsp_ret", "Z"}, "msg.Resp.SResultDesc": {"rsp_desc", "list N"}},
+		Funcs: map[string]xOracle{"fmt.Sprintf": {"sprintf_", "list N -> Z -> list N"}}},
 	{Name: "tr_cli_recv_chunk", Dir: "tars/transport", Func: "connection.recv", Deep: true, Fuel: true,
 		From: "currBuffer = append(currBuffer, buffer[:n]...)", To: "for {", Outs: []string{"currBuffer"}, After: []string{}, Fresh: []string{"currBuffer"},
 		Writer: &xWriter{Type: "list (list N)", Prims: map[string]xPrim{"c.client.protocol.Recv": {"go_deliver", []int{0}}}},
@@ -176,6 +184,51 @@ type xPkg struct {
 	files []*ast.File
 	info  *types.Info
 	pkg   *types.Package
+}
+
+// checkRead: the read path r (identifiers and member selections only) keeps its value while the statements run, as far as
+// the statements themselves are concerned: none assigns to r, to a prefix of r or to something reached through r, takes the
+// address of r or of a prefix, passes a prefix of r to a call, or calls a method on a prefix (ignored statements included)
+func (x *xl) checkRead(stmts []ast.Stmt, r string) {
+	for _, part := range strings.Split(r, ".") {
+		if !token.IsIdentifier(part) {
+			x.fail(stmts[0], "read path %q: identifiers and member selections only", r)
+		}
+	}
+	touches := func(s string) bool { return s == r || strings.HasPrefix(r, s+".") || strings.HasPrefix(s, r+".") }
+	prefix := func(s string) bool { return strings.HasPrefix(r, s+".") }
+	for _, st := range stmts {
+		ast.Inspect(st, func(n ast.Node) bool {
+			switch n := n.(type) {
+			case *ast.AssignStmt:
+				for _, l := range n.Lhs {
+					if touches(x.src(l)) {
+						x.fail(l, "assignment to %s, which the unit reads as the unchanging path %s", x.src(l), r)
+					}
+				}
+			case *ast.IncDecStmt:
+				if touches(x.src(n.X)) {
+					x.fail(n, "%s changes the read path %s", x.src(n), r)
+				}
+			case *ast.UnaryExpr:
+				if n.Op == token.AND && touches(x.src(n.X)) {
+					x.fail(n, "address of %s, which the unit reads as the unchanging path %s", x.src(n.X), r)
+				}
+			case *ast.CallExpr:
+				for _, a := range n.Args {
+					if prefix(x.src(a)) {
+						x.fail(a, "%s, a prefix of the read path %s, is handed to a call", x.src(a), r)
+					}
+				}
+				if se, ok := n.Fun.(*ast.SelectorExpr); ok && (prefix(x.src(se.X)) || x.src(se.X) == r) {
+					x.fail(n, "method call on %s, a prefix of the read path %s", x.src(se.X), r)
+				}
+			case *ast.FuncLit, *ast.GoStmt, *ast.DeferStmt:
+				x.fail(n, "function literal / go / defer in statements with read paths")
+			}
+			return true
+		})
+	}
 }
 
 // xLoader type-checks packages of the tree from source. Imports: packages of the tree's own module are loaded the
@@ -422,6 +475,15 @@ func xlateUnit(root string, u *xUnit, units []xUnit, ld *xLoader, records map[st
 		for _, n := range onames {
 			params = append(params, "("+u.Oracles[n].Name+" : "+u.Oracles[n].Type+")")
 		}
+		var rnames []string
+		for n := range u.Reads {
+			rnames = append(rnames, n)
+		}
+		sort.Strings(rnames)
+		for _, n := range rnames {
+			params = append(params, "("+u.Reads[n].Name+" : "+u.Reads[n].Type+")")
+			x.checkRead(stmts, n)
+		}
 		var mnames []string
 		for n := range u.Methods {
 			mnames = append(mnames, n)
@@ -586,8 +648,11 @@ func xlateUnit(root string, u *xUnit, units []xUnit, ld *xLoader, records map[st
 						}
 					}
 				}
-				if e, isExpr := n.(ast.Expr); isExpr { // an oracle expression is a parameter as a whole
+				if e, isExpr := n.(ast.Expr); isExpr { // an oracle expression / a read path is a parameter as a whole
 					if _, isOracle := u.Oracles[x.src(e)]; isOracle {
+						return false
+					}
+					if _, isRead := u.Reads[x.src(e)]; isRead {
 						return false
 					}
 				}
